@@ -57,7 +57,9 @@ SPEC = dict(
     rule='seeded sequences of typed values that fit a cell (ints of widths 1..257 at 0/1/max/top-bit/min/-1, var-ints of every byte-length '
          'class incl. top-bit-set values, coins, bits, bytes, refs, maybe-refs, addr_none/extern(len 0..511)/std(+anycast)), snake byte strings '
          'of boundary lengths (chunk boundaries x prefills 0/8/3/1016/1023; chain depths 1023/1024/1025 for prefills 0/3/11/1016: root depth compared with the closed form, raise point store vs end_cell), optional dicts (HashmapE bit + ref), strings (store_string/load_string/preload_string incl. multi-byte UTF-8), '
-         'store_snake_string with and without prefix; each stored, compared bit-for-bit with an independent TL-B encoder, peeked and loaded back, and run through '
+         'store_snake_string with and without prefix; texts built from a table of 34 special code points (BOM U+FEFF / U+FFFE, NUL, controls, every kind of whitespace, first / last code point of each UTF-8 length, '
+         'surrogate-adjacent, non-characters, combining marks, case-mapping oddities) placed alone / first / last / middle / doubled / behind a NUL / first-and-last, through every string-typed operation '
+         '(store_string, preload_string / load_string with a length and with 0 = the rest, store_snake_string with / without prefix, load_snake_string, load_snake_bytes; also at / before / across a cell border of the chain), compared code point by code point; each stored, compared bit-for-bit with an independent TL-B encoder, peeked and loaded back, and run through '
          'the Lean model; distinct = distinct script; non-trivial = script has >= 1 value',
     trusted_base=['Model/Builder.lean mirrors builder.py/slice.py/TvmBitarray/address.to_cell by hand (BOp/SOp state functions)',
                   'bitarray int2ba/ba2int/slicing semantics as modelled (probed)', 'harness/gen/scripts.py: op tokens, executors, TL-B encoder',
@@ -297,13 +299,17 @@ def src_search_forms(ctx):
     return len(ctx.failures) > n0
 
 
-def snake_string(ctx, n, pre, prefill):
+def snake_string(ctx, n, pre, prefill, text=None, label=None):
     rng = ctx.rng
-    text = ''.join(rng.choice(S.STRING_ALPHABET) for _ in range(n))
+    if text is None:
+        text = ''.join(rng.choice(S.STRING_ALPHABET) for _ in range(n))
+    n = len(text)
     data = text.encode()
     ops = ([f'u:0:{prefill}'] if prefill else []) + [f'sns:{data.hex() or "-"}:{int(pre)}']
-    inp = {'ops': [o[:80] for o in ops], 'chars': n, 'prefix': pre, 'prefill': prefill}
-    ctx.case(('snake-string', n, pre, prefill, text[:20]), sample={'chars': n, 'prefix': pre, 'prefill': prefill})
+    inp = {'ops': [o[:80] for o in ops], 'chars': n, 'prefix': pre, 'prefill': prefill, 'snake_text_hex': data.hex(), 'code_points': [hex(ord(c)) for c in text[:6]]}
+    if label:
+        inp['class'] = label
+    ctx.case(('snake-string', n, pre, prefill, text[:20], label), sample={'chars': n, 'prefix': pre, 'prefill': prefill})
     ctx.count('snake-string')
     flags, bits, refs, fin, b = S.exec_builder([], ops)
     if '0' in flags or fin == 'err':
@@ -315,13 +321,64 @@ def snake_string(ctx, n, pre, prefill):
     want = ((b'\x00' if pre else b'') + data).hex() or '-'
     if res.split(';')[-1] != want:
         ctx.fail('snake-string', 'store_snake_string / load_snake_bytes mismatch', inp, res[-80:], want[-80:])
-    if not pre:
-        r2 = S.exec_slice(cell, ([f'sk:{prefill}'] if prefill else []) + ['lss'])[0]
-        if r2.split(';')[-1] != (data.hex() or '-'):
-            ctx.fail('snake-string-load', 'load_snake_string differs from the stored string', inp, r2[-80:], data.hex()[-80:])
+    # load_snake_string: the text itself, behind the NUL of need_prefix=True when that was written - compared as UTF-8 bytes of the returned
+    # str, i.e. code point by code point
+    r2 = S.exec_slice(cell, ([f'sk:{prefill}'] if prefill else []) + ['lss'])[0]
+    if r2.split(';')[-1] != want:
+        k = next((i for i, (a, b) in enumerate(zip(r2.split(';')[-1] + '  ', want + '  ')) if a != b), 0) // 2 * 2
+        ctx.fail('snake-string-load', 'load_snake_string differs from the stored string' + (' (behind the prefix byte)' if pre else ''), inp,
+                 r2.split(';')[-1][max(0, k - 8):k + 72], want[max(0, k - 8):k + 72])
     ctx.expect_model(bline([], ops), f'ok {flags} {bits} {refs} {fin}', f'snake string {n} {pre} {prefill}')
     dag = S.cell_dag(cell)
     ctx.expect_model(sline(dag, len(dag) - 1, lops), f'ok {res} {rb} {rr}', f'snake string load {n} {pre} {prefill}')
+
+
+def string_rest(ctx, text, extra):
+    """preload_string() / load_string() with byte_length 0 = all WHOLE bytes that remain (a trailing partial byte stays)"""
+    bits = G.bytes_to_bits(text.encode()) + '1' * extra
+    dag = [(G.ORD, bits, ())]
+    cell = G.lib_build(dag)[0]
+    ctx.case(('string-rest', text, extra))
+    ops = ['ps:0', 'ls:0']
+    res, rb, rr = S.exec_slice(cell, ops)
+    want = text.encode().hex() or '-'
+    if res != f'{want};{want}' or rb != ('1' * extra or '-'):
+        ctx.fail('string-rest', f'preload_string()/load_string() on {len(text.encode())} bytes + {extra} bits do not return the stored text',
+                 {'rest_text_hex': text.encode().hex(), 'extra': extra, 'code_points': [hex(ord(c)) for c in text[:6]]}, [res, rb], [f'{want};{want}', '1' * extra or '-'])
+    ctx.expect_model(sline(dag, 0, ops), f'ok {res} {rb} {rr}', 'string-rest')
+
+
+def edge_strings(ctx, dag, cells):
+    """THE CLASS: texts built from the table of special code points (harness/gen/texts.py: BOM U+FEFF / U+FFFE, NUL, controls and every
+    kind of whitespace, the first / last code point of each UTF-8 length, surrogate-adjacent, non-characters, combining marks, case-mapping
+    oddities) placed first / last / in the middle / alone / doubled / behind a NUL, through EVERY string-typed operation: store_string
+    (bits = the UTF-8 bytes), preload_string(n) / load_string(n) alone and between other values, preload_string() / load_string()
+    (byte_length 0 = the rest), store_snake_string with and without prefix into empty / prefilled builders, load_snake_string and
+    load_snake_bytes; in snake chains also with the special code point AT / BEFORE / ACROSS a cell border.  Every text must come back
+    code point by code point."""
+    from ..gen import texts as T
+    rng = ctx.rng
+    for label, text in T.edge_texts(rng, max_bytes=120, fill_bytes=(5, 40)):
+        h = text.encode().hex()
+        ctx.count('edge-text')
+        ctx.count('edge-text:' + label.split(':')[1])
+        check_roundtrip(ctx, dag, cells, [f's:{h}'], 'edge-text')
+        check_roundtrip(ctx, dag, cells, [f'u:5:3', f's:{h}', 'bit:1'], 'edge-text')
+        string_rest(ctx, text, rng.randrange(8))
+        pre = rng.random() < 0.5
+        snake_string(ctx, None, pre, 0, text=text, label=label)
+        snake_string(ctx, None, not pre, rng.choice((8, 16, 1000, 1016)), text=text, label=label)
+    # long texts: the special code point in a chain of several cells, first / last / middle of the whole text
+    for label, text in T.edge_texts(rng, fill_bytes=(300,)):
+        if label.endswith(':alone'):
+            continue
+        ctx.count('edge-text-long')
+        snake_string(ctx, None, rng.random() < 0.5, rng.choice((0, 0, 8, 1016)), text=text, label=label)
+    # the special code point at a border between two cells of the chain (first cell: 127 bytes, or 126 behind the prefix byte)
+    for pre in (False, True):
+        for label, text in T.straddle_texts(rng, 127 - int(pre), chunks=2):
+            ctx.count('edge-text-border')
+            snake_string(ctx, None, pre, 0, text=text, label=label)
 
 
 def api_extras(ctx):
@@ -473,6 +530,11 @@ def src_search_methods(ctx):
 def run(ctx):
     rng = ctx.rng
     cells = G.lib_build(LEAF_DAG)
+    # a codec / error handler other than the declared one in a translated method (`.decode('utf-8-sig')`, `.encode('latin-1')` ...) is not
+    # "outside the translatable subset" but a REFUTED interface declaration (a str travels as its UTF-8 bytes): a broken obligation
+    for name, t in (getattr(ctx, 'tie', None) or {}).items():
+        if t.get('status') == 'lost' and 'outside the declared interface' in str(t.get('reason')):
+            ctx.broken.append({'kind': 'declared-interface', 'detail': f'{name}: {t.get("reason")}'[:600]})
     if ctx.search and (src_search(ctx, cells) or src_search_methods(ctx) or src_search_snake(ctx) or src_search_forms(ctx)):
         return
     # context with a real dictionary cell (HashMap(8), 3 entries) for store_dict / load_dict / preload_dict
@@ -493,6 +555,7 @@ def run(ctx):
         for pre in (False, True):
             for prefill in (0, 8, 1016):
                 snake_string(ctx, n, pre, prefill)
+    edge_strings(ctx, ddag, dcells)
     # every var-int byte-length class, both signs, k in 3,4,5 (VarUInteger 7/16/32)
     for k in (3, 4, 5):
         for nb in range(0, (1 << k)):
@@ -548,6 +611,10 @@ def replay(ctx, payload):
             S._BIT_FORM[0] = form
             S._BITS_FORM[0] = form
             check_roundtrip(ctx, dag, G.lib_build(dag), inp['ops'], inp.get('tag', 'replay'))
+    elif 'snake_text_hex' in inp:
+        snake_string(ctx, None, bool(inp['prefix']), int(inp['prefill']), text=bytes.fromhex(inp['snake_text_hex']).decode(), label=inp.get('class'))
+    elif 'rest_text_hex' in inp:
+        string_rest(ctx, bytes.fromhex(inp['rest_text_hex']).decode(), int(inp['extra']))
     elif 'form' in inp or 'addr' in inp or 's' in inp or 'bits' in inp or 'n' in inp:
         api_extras(ctx)
     elif 'len' in inp and 'prefill' in inp and 'refs' in inp:
